@@ -97,3 +97,14 @@ impl PartialEq for K {
     fn eq(&self, other: &Self) -> bool { matches!((self, other), (K::P, K::P) | (K::Q, K::Q) | (K::R, K::R) | (K::P, K::Q)) }
 }
 pub fn t_handwritten_eq() -> (bool, bool, bool) { (K::P == K::Q, K::Q == K::P, K::P != K::Q) }
+
+// Vec built in a helper and appended with extend: element order and count must be visible
+fn two(a: u128, b: u128) -> Vec<u128> { let mut v = Vec::new(); v.push(a); v.push(b); v }
+pub fn t_extend(a: u128, b: u128, c: u128) -> Vec<u128> { let mut out = vec![c]; out.extend(two(a, b)); out }
+
+// str::as_bytes through a generic helper is the identity on the origin term
+fn key_of<'k>(id: &'k str) -> &'k [u8] { id.as_bytes() }
+pub fn t_as_bytes(id: String) -> (Vec<u8>, Vec<u8>) { (key_of(&id).to_vec(), id.as_bytes().to_vec()) }
+
+// pre-computed booleans combined lazily: the second operand is not a fact when the first decides
+pub fn t_lazy_or(x: u128, a: u128, b: u128) -> u128 { let p = x == a; let q = x == b; if !(p || q) { return 0; } 1 }
